@@ -109,18 +109,28 @@ pub mod reqwest {
         }
         }
     }
-    // reqwest::Url (the `url` crate): a parsed URL and its host, as functions of the text
-    pub struct Url { pub text: Ghost<Seq<char>> }
+    // reqwest::Url (the `url` crate): parsing NORMALISES (default port dropped, scheme and host lower-cased, dot segments
+    // removed, characters percent-encoded, an empty path made `/`): a parsed URL remembers the text it came from (`src`) and
+    // serialises (`as_str`, Display) as the normal form of it (`text`), which is in general another string
+    pub struct Url { pub src: Ghost<Seq<char>>, pub text: Ghost<Seq<char>> }
     pub struct UrlParseError { pub x: u8 }
     pub uninterp spec fn url_host(u: Seq<char>) -> Option<Seq<char>>;
+    pub uninterp spec fn url_normal(u: Seq<char>) -> Seq<char>;
     impl Url {
         #[verifier::external_body]
-        pub fn parse(s: &str) -> (r: std::result::Result<Url, UrlParseError>) ensures r matches Ok(u) ==> u.text@ == s@ { unimplemented!() }
+        pub fn parse(s: &str) -> (r: std::result::Result<Url, UrlParseError>) ensures r matches Ok(u) ==> u.src@ == s@ && u.text@ == url_normal(s@) { unimplemented!() }
         #[verifier::external_body]
-        pub fn host_str(&self) -> (r: Option<&str>) ensures match r { Some(h) => url_host(self.text@) == Some(h@), None => url_host(self.text@) is None } { unimplemented!() }
+        pub fn host_str(&self) -> (r: Option<&str>) ensures match r { Some(h) => url_host(self.src@) == Some(h@), None => url_host(self.src@) is None } { unimplemented!() }
         #[verifier::external_body]
         pub fn as_str(&self) -> (r: &str) ensures r@ == self.text@ { unimplemented!() }
     }
+    impl Clone for Url { #[verifier::external_body] fn clone(&self) -> (r: Self) ensures r == *self { unimplemented!() } }
+    // what a request may be addressed by: a text, or a parsed URL (the request goes to the URL that text / that URL's source names)
+    pub trait IntoUrl { spec fn addressed(&self) -> Seq<char>; }
+    impl IntoUrl for &str { open spec fn addressed(&self) -> Seq<char> { self@ } }
+    impl IntoUrl for &String { open spec fn addressed(&self) -> Seq<char> { self@ } }
+    impl IntoUrl for Url { open spec fn addressed(&self) -> Seq<char> { self.src@ } }
+    impl IntoUrl for &Url { open spec fn addressed(&self) -> Seq<char> { self.src@ } }
     pub struct ClientBuilder { pub roots: Ghost<Set<Seq<u8>>>, pub insecure: Ghost<bool> }
     impl ClientBuilder {
         #[verifier::external_body]
@@ -150,11 +160,11 @@ pub mod reqwest {
     }
     impl Client {
         #[verifier::external_body]
-        pub fn get(&self, url: &str) -> (r: RequestBuilder)
-            ensures r.roots == self.roots, r.insecure == self.insecure, !r.is_post@, r.url@ == url@ { unimplemented!() }
+        pub fn get<U: IntoUrl>(&self, url: U) -> (r: RequestBuilder)
+            ensures r.roots == self.roots, r.insecure == self.insecure, !r.is_post@, r.url@ == url.addressed() { unimplemented!() }
         #[verifier::external_body]
-        pub fn post(&self, url: &str) -> (r: RequestBuilder)
-            ensures r.roots == self.roots, r.insecure == self.insecure, r.is_post@, r.url@ == url@ { unimplemented!() }
+        pub fn post<U: IntoUrl>(&self, url: U) -> (r: RequestBuilder)
+            ensures r.roots == self.roots, r.insecure == self.insecure, r.is_post@, r.url@ == url.addressed() { unimplemented!() }
     }
     impl RequestBuilder {
         #[verifier::external_body]
